@@ -125,6 +125,31 @@ func rR1(c *Ctx, plugins ...string) {
 		c.Rep.fail(Finding{Rule: "R1", Key: "R1|single-value-assertion|selftest", Kind: "undecided", Msg: "the single-value assertion rule does not fire on its built-in positive example"})
 	}
 	for _, p := range plugins {
+		// a run whose text and type fingerprint repeat an earlier one is not analysed again, but what it established about the
+		// names it emits may differ (an unexported field name renders like an exported one): the accessibility rule is
+		// evaluated on the earlier residual with the decisions of every such run
+		byText := map[string]*Resid{}
+		for _, rs := range c.acceptedResids(p) {
+			if rs.Err == nil {
+				byText[rs.Run.Text] = rs
+			}
+		}
+		reported := false
+		for _, r := range c.R.Runs(p) {
+			if r.Outcome != "accepted" || !r.Dup || reported {
+				continue
+			}
+			rs := byText[r.Text]
+			if rs == nil {
+				continue
+			}
+			if bad, why := privateSelectorIssue(rs, r.Decisions); bad != nil {
+				reported = true
+				c.Rep.fail(Finding{Rule: "R1", Key: fmt.Sprintf("R1|%s|private-field-selector", p), Plugin: p, Script: r.Script,
+					Msg:    fmt.Sprintf("plugin %s: %s — for a struct of another package with unexported fields goderive exits 0 and derived.gen.go does not compile (cannot refer to unexported field)", p, why),
+					Detail: "abstract path: " + r.describe() + "\nresidual:\n" + rs.Run.excerpt(40)})
+			}
+		}
 		for _, rs := range c.acceptedResids(p) {
 			if rs.Err != nil {
 				line := 0
@@ -193,6 +218,19 @@ func rR1(c *Ctx, plugins ...string) {
 				}
 				c.Rep.fail(Finding{Rule: "R1", Key: fmt.Sprintf("R1|%s|%s|selector-provenance", p, fn), Where: where, Plugin: p, Script: rs.Run.Script,
 					Msg:    fmt.Sprintf("plugin %s: %s — the emitted selector relies on field promotion through an embedded struct: when the outer struct declares a field of the same name the selector means that field, the embedded struct's field is never reached (not compared, hashed, copied or printed), and with two embedded structs sharing the name the text does not compile", p, why),
+					Detail: "abstract path: " + rs.Run.describe() + "\nresidual:\n" + rs.Run.excerpt(40)})
+				continue
+			}
+			if bad, why := privateSelectorIssue(rs, rs.Run.Decisions); bad != nil {
+				line := rs.Fset.Position(bad.Pos()).Line
+				fn := "?"
+				where := []string{}
+				if line > 0 && line-1 < len(rs.Run.LinePos) {
+					fn = c.R.repo.funcAt(rs.Run.LinePos[line-1])
+					where = append(where, rs.Run.where(c.Repo, line))
+				}
+				c.Rep.fail(Finding{Rule: "R1", Key: fmt.Sprintf("R1|%s|%s|private-field-selector", p, fn), Where: where, Plugin: p, Script: rs.Run.Script,
+					Msg:    fmt.Sprintf("plugin %s: %s — for a struct of another package with unexported fields goderive exits 0 and derived.gen.go does not compile (cannot refer to unexported field)", p, why),
 					Detail: "abstract path: " + rs.Run.describe() + "\nresidual:\n" + rs.Run.excerpt(40)})
 				continue
 			}
@@ -1197,4 +1235,69 @@ func rDepValidation(c *Ctx, plugins ...string) {
 			c.Rep.pass("R-dep")
 		}
 	}
+}
+
+// privateSelectorIssue — a field that is selected directly (x.f) must be one the generated file may name: the path has
+// established that its name is exported, or that its struct type is not a type of another package (IsExternal answered no, or
+// the struct type is not a defined type). Otherwise the emitted text selects an unexported field of an imported struct:
+// goderive exits 0 and derived.gen.go does not compile ("cannot refer to unexported field").
+func privateSelectorIssue(rs *Resid, decisions []Decision) (ast.Expr, string) {
+	norm := func(o string) string {
+		o = strings.TrimPrefix(strings.TrimPrefix(strings.TrimPrefix(o, "mangled:"), "bypass:"), "mangled:")
+		return tieRe.ReplaceAllString(strings.ReplaceAll(o, ".Underlying()", ""), "[*]")
+	}
+	fieldRe := regexp.MustCompile(`^(.*)\[(\d+|\*)\]\.Name\(\)$`)
+	exported := map[string]bool{} // normalised origin of a field name -> established exported
+	local := map[string]bool{}    // normalised origin of a struct type -> established not external / not a defined type
+	for _, d := range decisions {
+		switch {
+		case strings.HasPrefix(d.Sym, "B:token.IsExported(‹NAME:") && d.Choice == 0:
+			exported[norm(strings.TrimSuffix(strings.TrimPrefix(d.Sym, "B:token.IsExported(‹NAME:"), "›)"))] = true
+		case strings.Contains(d.Sym, ".IsExternal(") && strings.HasPrefix(d.Sym, "B:") && d.Choice == 1:
+			i := strings.Index(d.Sym, ".IsExternal(")
+			local[norm(strings.TrimSuffix(d.Sym[i+len(".IsExternal("):], ")"))] = true
+		case strings.HasPrefix(d.Sym, "A:") && strings.HasSuffix(d.Sym, ":*types.Named") && d.Choice == 1:
+			local[norm(strings.TrimSuffix(strings.TrimPrefix(d.Sym, "A:"), ":*types.Named"))] = true
+		case strings.HasPrefix(d.Sym, "A:") && strings.HasSuffix(d.Sym, ":*types.Struct") && d.Choice == 0 && !strings.HasSuffix(d.Sym, ".Underlying():*types.Struct"):
+			// the type itself (not its underlying type) is a struct type literal: not a defined type of another package
+			local[norm(strings.TrimSuffix(strings.TrimPrefix(d.Sym, "A:"), ":*types.Struct"))] = true
+		case strings.HasPrefix(d.Sym, "K:") && !strings.Contains(strings.SplitN(d.Sym, ":", 3)[1], ".Underlying()") || strings.HasPrefix(d.Sym, "K:") && !strings.HasSuffix(strings.SplitN(d.Sym, ":*", 2)[0], ".Underlying()"):
+			parts := strings.SplitN(strings.TrimPrefix(d.Sym, "K:"), ":*", 2)
+			if len(parts) == 2 && !strings.HasSuffix(parts[0], ".Underlying()") {
+				cands := strings.Split("*"+parts[1], ",")
+				if d.Choice < len(cands) && cands[d.Choice] == "*types.Struct" {
+					local[norm(parts[0])] = true
+				}
+			}
+		}
+	}
+	var bad ast.Expr
+	why := ""
+	for _, fn := range rs.Funcs {
+		ast.Inspect(fn, func(n ast.Node) bool {
+			sel, ok := n.(*ast.SelectorExpr)
+			if !ok || bad != nil {
+				return bad == nil
+			}
+			h := rs.hole(sel.Sel.Name)
+			if h == nil || h.Kind != "NAME" {
+				return true
+			}
+			o := norm(h.Origin)
+			m := fieldRe.FindStringSubmatch(o)
+			if m == nil || exported[o] || local[m[1]] {
+				return true
+			}
+			if v, ok := h.Val.(*VOpaque); ok && v != nil && v.notNamed {
+				return true
+			}
+			bad = sel
+			why = fmt.Sprintf("%s selects the field %s although this path established neither that its name is exported nor that the struct type %s belongs to the package being generated", exprStr(sel), shortSym(h.Origin), shortSym(m[1]))
+			return false
+		})
+		if bad != nil {
+			break
+		}
+	}
+	return bad, why
 }
